@@ -3,9 +3,8 @@
  "name": "resize_fs_protocol",
  "props": ["C08"],
  "level": "P",
- "tier": "wip",
+ "tier": "quick",
  "harness": "h_resize_fs",
- "enforce": ["resize_fs"],
  "replace": ["fix_uninit_block_bitmaps", "resize_group_descriptors", "move_bg_metadata", "zero_high_bits_in_inodes",
              "adjust_superblock", "blocks_to_move", "block_mover", "inode_scan_and_fix", "inode_ref_fix", "move_itables",
              "clear_sparse_super2_last_group", "resize2fs_calculate_summary_stats", "fix_resize_inode",
@@ -27,9 +26,8 @@
  "name": "resize_fs_flush_error",
  "props": ["C08"],
  "level": "P",
- "tier": "wip",
+ "tier": "obs",
  "harness": "h_resize_fs_flush_error",
- "enforce": ["resize_fs"],
  "replace": ["fix_uninit_block_bitmaps", "resize_group_descriptors", "move_bg_metadata", "zero_high_bits_in_inodes",
              "adjust_superblock", "blocks_to_move", "block_mover", "inode_scan_and_fix", "inode_ref_fix", "move_itables",
              "clear_sparse_super2_last_group", "resize2fs_calculate_summary_stats", "fix_resize_inode",
@@ -129,6 +127,7 @@ void init_resource_track(struct resource_track *track, const char *desc, io_chan
 void print_resource_track(ext2_resize_t rfs, struct resource_track *track, io_channel channel) { }
 errcode_t ext2fs_read_bitmaps(ext2_filsys fs) { return IN.ret_read_bitmaps; }
 blk64_t ext2fs_blocks_count(struct ext2_super_block *super) { return IN.blocks_count; }
+blk64_t ext2fs_free_blocks_count(struct ext2_super_block *super) { return IN.blocks_count; }	/* debug printout only */
 
 errcode_t ext2fs_flush(ext2_filsys fs)
 {
